@@ -90,8 +90,6 @@ def judge(chk, c, evs):
     exp = model.expected_gds(lib, c.meta['max_points'], outl)
     if exp['ties']:
         chk.cov('cases_skipped_for_half_grid_ties')
-        if chk.coverage['cases_skipped_for_half_grid_ties'] <= 3:
-            print('tie example', c.id, lib['unit'], lib['precision'], exp['tie_examples'])
         return
     rnd = random.Random(c.meta['seed'])
     o1 = model.from_dump(dumps['L1'])
@@ -126,15 +124,48 @@ def judge(chk, c, evs):
         chk.fp(c.id)
 
 
+def work(rec, b, indices):
+    cases = [make_case(i, rec.tier) for i in indices]
+    ev = script.run_cases(rec, b, cases, shards=1)
+    for c in cases:
+        rec.evaluations += 1
+        judge(rec, c, ev.get(c.id, []))
+
+
+def probe_one_grid_apart(chk, b):
+    """Known finding: a simple path with two consecutive centre-line points exactly one grid step apart loses one of them at
+    the second save (read_gds gives loaded paths a tolerance of one grid step; remove_overlapping_points compares with <)."""
+    c = Case('probe-one-grid-apart')
+    c.op('lib', '4c', '1e-06', '1e-09')
+    c.op('cell', '41', 'l0')
+    c.op('fpath', 'c0', '0.071', '-0.11', 1, '0.0001', '0.018', '0.0', 1, 0)
+    c.op('fpset', 'f0', 1, 1)
+    c.op('fpel', 'f0', 0, 0, 0, '0.0', '0.0', 0, '0.0')
+    c.op('fpcall', 'f0', 'segment', 0, '-', '-', 4, '0.071', '0.033', '-0.014', '0.033', '-0.015', '0.033', '-0.015', '-0.07')
+    for k in (0, 1):
+        c.op('write_gds', 'l%d' % k, 'f%d.gds' % k, 0, '2021 3 4 5 6 7')
+        c.op('read_gds', 'f%d.gds' % k, 0, 0)
+        c.op('dump_lib', 'l%d' % (k + 1), 'L%d' % (k + 1))
+    ev = script.run_cases(chk, b, [c], shards=1)
+    evs = ev.get(c.id, [])
+    if not script.check_exit(chk, c, evs):
+        return
+    d = {e['label']: e for e in evs if e['op'] == 'dump_lib'}
+    s1 = d['L1']['cells'][0]['fpaths'][0]['spine']
+    s2 = d['L2']['cells'][0]['fpaths'][0]['spine']
+    if s1 != s2:
+        chk.violation('C01/fixpoint/path-points-one-grid-apart',
+                      'second save/load cycle changes a path: %d centre-line points after the first load, %d after the second' % (
+                          len(s1) // 2, len(s2) // 2), {'case': c.text()})
+
+
 def run(tier):
     chk = vfw.Check('C01', tier)
     b = vfw.build()
-    n = 1200 if tier == 'quick' else 30000
-    cases = [make_case(i, tier) for i in range(n)]
-    ev = script.run_cases(chk, b, cases)
-    for c in cases:
-        chk.evaluations += 1
-        judge(chk, c, ev.get(c.id, []))
+    probe_one_grid_apart(chk, b)
+    n = 4000 if tier == 'quick' else 60000
+    vfw.run_sharded(chk, b, n, work)
+    cases = [make_case(0, tier)]
     chk.sample({'case': cases[0].id, 'spec': cases[0].meta['spec'], 'max_points': cases[0].meta['max_points']})
     chk.rule = ('seeded libraries (1-5 cells; polygons of 6 shape classes with grid fractions, labels with every anchor/rotation/'
                 'magnification/reflection, references incl. by-name to absent cells with every repetition kind, simple and non-simple '
